@@ -55,13 +55,27 @@ def part(ctx, prop):
     neg = ctx.tlc("Batcher", cfg("compact", ctx.path("batcher-neg.ndjson"), 3, live=False), "batcher-neg", workers=4, timeout=600)
     if neg["status"] != "invariant":
         raise Infra("vacuity guard: the aliasing cut of the backlog was not rejected by Batcher.tla")
+    # BatcherN.tla: the runner's nbWorkers parameter. One worker refines Batcher.tla; two workers keep everything but the order.
+    def ncfg(workers, invs, props):
+        return ("SPECIFICATION FairSpec\nCONSTANTS\n  MaxItems = %d\n  MaxBatch = 2\n  Workers = %d\nINVARIANTS %s\nPROPERTIES %s\nCHECK_DEADLOCK FALSE\n"
+                % (7 if thorough else 6, workers, invs, props))
+    rest = "NothingLostSet BatchBound ChannelsFit AckAfterStore AckOnce"
+    n1 = ctx.tlc("BatcherN", ncfg(1, "Fifo AcksInOrder " + rest, "AllStoredEventually RefinesBatcher"), "batcherN-1", workers=4, timeout=600)
+    n2 = ctx.tlc("BatcherN", ncfg(2, rest, "AllStoredEventually"), "batcherN-2", workers=4, timeout=900)
+    if n1["status"] != "ok" or n2["status"] != "ok":
+        raise Infra("BatcherN.tla fails: one worker %s %s, two workers %s %s" % (n1["status"], n1.get("invariant"), n2["status"], n2.get("invariant")))
+    n2neg = ctx.tlc("BatcherN", ncfg(2, "Fifo", "AllStoredEventually"), "batcherN-2-neg", workers=4, timeout=600)
+    if n2neg["status"] != "invariant":
+        raise Infra("vacuity guard: two batcher workers were not shown to break the store order in BatcherN.tla")
+    runs += [n1, n2]
     if total["full_batches"] < 100:
         raise Infra("vacuity guard: only %d full batches were cut on the real batcher" % total["full_batches"])
     if counts_all.get("Conf_BatchesAsPredicted", 0):
         ctx.notes.append("SPEC-DRIFT: %d schedules where the real batcher cut other batches than Batcher.tla predicts" % counts_all["Conf_BatchesAsPredicted"])
     ctx.coverage["batcher_part"] = {
         "states": sum(r.get("distinct", 0) for r in runs), "schedules": total["schedules"], "items": total["items"], "full_batches_cut": total["full_batches"],
-        "negative_design_rejected": "compact:%s" % neg.get("invariant"), "predicate_failures": counts_all,
+        "negative_design_rejected": "compact:%s; two-workers:%s" % (neg.get("invariant"), n2neg.get("invariant")), "predicate_failures": counts_all,
+        "workers_generalisation": "BatcherN.tla: Workers=1 refines Batcher.tla (RefinesBatcher) with every invariant and liveness; Workers=2 keeps NothingLostSet/AckAfterStore/AckOnce/ChannelsFit/liveness and loses Fifo (the constant 1 in commander.go is what orders the store calls)",
         "rule": "every word over {append, release} up to the stated length with at least one append, for max batch sizes 2 and 3%s; each run on a fresh real Batcher (one worker, as the Commander builds it) whose store call is held until released; liveness (every item eventually stored and acknowledged) model-checked under weak fairness and observed as 'no stall within 2 s'" % (" and 1" if thorough else ""),
     }
 
